@@ -146,7 +146,7 @@ let run_case (line : string) : string =
   | "lex" -> let tk = next t in lex_case (decode_src (rest tk))
   | "compile" ->
       let src = decode_src (rest (next t)) in
-      (match M.compile_source (nat_of_int (List.length src + 20000)) src with
+      (match M.compile_checked (nat_of_int (List.length src + 20000)) src with
        | M.COk (p, _) ->
            let b = Buffer.create 128 in
            Buffer.add_string b "OK "; print_code b p.M.pr_code;
@@ -182,7 +182,7 @@ let run_case (line : string) : string =
             let n = bytes_of_hex (next t) in
             let src = decode_src (next t) in
             if err <> None then go acc err else
-            (match M.compile_source (nat_of_int (List.length src + 20000)) src with
+            (match M.compile_checked (nat_of_int (List.length src + 20000)) src with
              | M.COk (p, _) -> go ((n, p.M.pr_code) :: acc) None
              | M.CSyntax l -> go acc (Some ("CERR " ^ hex_of_bytes n ^ " Esyn:" ^ loc_str l))
              | M.CPanic -> go acc (Some "PANIC")
@@ -218,7 +218,7 @@ let run_case (line : string) : string =
              | M.PUnit -> ""
              | M.PNew y -> " N( " ^ sd y ^ " )"
              | M.PStruct fs -> " P( " ^ String.concat " " (List.map (fun (k, v) -> hex_of_bytes k ^ "= " ^ sd v) fs) ^ " )") in
-      (match M.compile_source (nat_of_int (List.length src + 20000)) src with
+      (match M.compile_checked (nat_of_int (List.length src + 20000)) src with
        | M.COk (p, _) -> "OK " ^ sd (M.ser_program (M.utf8_encode src) p.M.pr_params p.M.pr_code)
        | M.CSyntax l -> "CERR Esyn:" ^ loc_str l
        | M.CPanic -> "PANIC" | M.CFuel -> "MODEL_FUEL" | M.CUnmod -> "UNMOD")
@@ -242,7 +242,7 @@ let run_case (line : string) : string =
         | Some j -> M.map_insert m k (M.value_of_json j)
         | None -> bad := true; m) db jb in
       if !bad then "BADCASE value has no JSON form" else
-      (match M.compile_source (nat_of_int (List.length src + 20000)) src with
+      (match M.compile_checked (nat_of_int (List.length src + 20000)) src with
        | M.COk (p, _) ->
            let env = { M.e_bound = true; e_params = binds; e_progs = [(bytes_of_ascii "main", p.M.pr_code)]; e_ufuncs = [];
                        e_runtime = true; e_now = Some M.Z0 } in
